@@ -1,6 +1,8 @@
 """C05 - status frames are interpreted as the vendor protocol defines (DESIGN §6 C05)."""
 from __future__ import annotations
 
+import itertools
+
 from .. import explorer, libview, runner, worlds
 from ..ref import at4, at5
 from ..ref.at4 import ABSENT, UNSPEC, Malformed
@@ -219,6 +221,58 @@ def sweep_layout(job):
     return stats, bad
 
 
+def _fresh_decode(gen):
+    """A registry with brand-new decoder objects (the registry module is executed again)."""
+    import importlib
+    reg_mod = importlib.import_module(f"pyairtouch.at{gen}.comms.registry")
+    importlib.reload(reg_mod)
+
+    def dec(typ, data):
+        try:
+            return ("ok", repr(lib_decode(gen, typ, data)))
+        except Exception as e:  # noqa: BLE001
+            return ("rejected", type(e).__name__)
+    return dec
+
+
+def history_independence(job):
+    """What a payload decodes to does not depend on what the same decoder objects were given before: every
+    sequence of three payloads from a sample (valid ones, rejected ones, another stride) decodes, one after the
+    other on one registry, to what each decodes to on a brand-new registry."""
+    li = job
+    lay = LAYOUTS[li]
+    sample = [lay.wrap([b]) for b in lay.bases]
+    sample.append(lay.wrap([lay.bases[1], lay.bases[0]]))
+    if lay.gen == 5:
+        sample.append(lay.wrap([lay.bases[0], lay.bases[2]], stride=lay.size + 2))
+    # rejected payloads: single-byte variations of the first base record the library refuses, and a short one
+    dec = _fresh_decode(lay.gen)
+    rejected = []
+    for pos in range(lay.size):
+        for v in (0xFF, 0x7F, 0xE0, 0x0F):
+            data = lay.wrap([lay.bases[0][:pos] + bytes([v]) + lay.bases[0][pos + 1:]])
+            if dec(lay.typ, data)[0] == "rejected" and data not in rejected:
+                rejected.append(data)
+                break
+        if len(rejected) >= 2:
+            break
+    short = lay.wrap([lay.bases[0]])[:-1]
+    sample += rejected + [short]
+    alone = {}
+    for d in sample:
+        alone[d] = _fresh_decode(lay.gen)(lay.typ, d)
+    n = 0
+    for seq in itertools.product(sample, repeat=3):
+        dec = _fresh_decode(lay.gen)
+        for i, d in enumerate(seq):
+            n += 1
+            got = dec(lay.typ, d)
+            if got != alone[d]:
+                return n, len(sample), (f"{lay.name}:history", f"{lay.name}: payload {d.hex()} decodes to {alone[d][0]} {alone[d][1][:120]} on a new "
+                                        f"decoder, but after {[x.hex() for x in seq[:i]]} on the same decoder it gives {got[0]} {got[1][:120]}")
+    return n, len(sample), None
+
+
 STR_ALPHABET = [b"", b"A", b"Living", b"Zone 1", "Café".encode(), "客厅".encode(), "\U0001f600".encode(),
                 b"12345678", b"1234567890ABCDEF", b"a\x00b", b"\xff\xfe", b"ER: FFFE"]
 
@@ -333,6 +387,12 @@ def run(tier, seed, part=None):
         for sig, msg in bad:
             data = msg.split("payload ")[1].split(":")[0]
             chk.violation(sig, msg, {"kind": "input", "module": "pvmc.props.c05", "layout": LAYOUTS[job[0]].name, "data": data})
+    hres = explorer.pool().map(history_independence, list(range(len(LAYOUTS))), chunksize=1)
+    for li, (n, k, viol) in enumerate(hres):
+        total["evaluations"] = total.get("evaluations", 0) + n
+        total["history_triples"] = total.get("history_triples", 0) + k ** 3
+        if viol:
+            chk.violation(viol[0], viol[1], {"kind": "input", "module": "pvmc.props.c05", "layout": "history", "message": viol[1]})
     for (gen, (stats, bad)) in zip((4, 5), explorer.pool().map(sweep_ext, [(4, tier), (5, tier)], chunksize=1)):
         for k, v in stats.items():
             total[k] = total.get(k, 0) + v
